@@ -54,7 +54,10 @@ pub fn case(x: &Xfer) -> CaseOut {
         if let (Some(prev), false) = (last_mtu.get(conn).copied(), new_path) {
             if b.mtu > prev {
                 mtu_up = true;
-                let ok = sent_sizes.get(conn).is_some_and(|v| v.contains(&(b.mtu as usize)));
+                // path_changed() restarts MTU discovery from the configured initial MTU
+                let side_ops = if c.side.is_client() { &x.client.ops } else { &x.server.ops };
+                let restarted = b.mtu == tc.initial_mtu.min(peer_ep.max_udp_payload.clamp(1200, 65527)) && side_ops.iter().any(|o| o.op == AuxOp::PathChanged);
+                let ok = restarted || sent_sizes.get(conn).is_some_and(|v| v.contains(&(b.mtu as usize)));
                 if !ok {
                     return CaseOut::fail(
                         "c13/mtu-raised-without-probe",
@@ -70,6 +73,15 @@ pub fn case(x: &Xfer) -> CaseOut {
             let floor = tc.min_mtu.min(peer_ep.max_udp_payload).max(1200).min(tc.min_mtu.max(1200));
             if m < floor.min(peer_ep.max_udp_payload.max(1200)) {
                 return CaseOut::fail("c13/mtu-below-floor", format!("t={t} conn {conn}: MTU estimate {m} below min(min_mtu {}, peer max_udp_payload_size {})", tc.min_mtu, peer_ep.max_udp_payload));
+            }
+        }
+        // once the peer's transport parameters are known the estimate respects its max_udp_payload_size
+        if b.state == 1 && a.state == 1 {
+            let peer_max = peer_ep.max_udp_payload.clamp(1200, 65527);
+            for m in [b.mtu, a.mtu] {
+                if m > peer_max {
+                    return CaseOut::fail("c13/mtu-above-peer-limit", format!("t={t} conn {conn}: MTU estimate {m} exceeds the peer's max_udp_payload_size {peer_max}"));
+                }
             }
         }
         last_mtu.insert(*conn, a.mtu);
@@ -198,10 +210,19 @@ pub fn run(report: &Report) -> i32 {
             use proptest::prelude::*;
             // a quarter of the cases: the client's source address changes mid-transfer (server permits
             // migration), so PATH_CHALLENGE / PATH_RESPONSE datagrams and the new path's MTU discovery appear
-            (arb_xfer(gen()), prop::option::weighted(0.25, 200_000u32..3_000_000)).prop_map(|(mut x, mv)| {
+            // a fifth of the cases: an application that knows better calls path_changed() (RTT, congestion
+            // control and MTU discovery start over)
+            (arb_xfer(gen()), prop::option::weighted(0.25, 200_000u32..3_000_000), prop::collection::vec((any::<bool>(), 50_000u32..3_000_000), 0..3), prop::bool::weighted(0.2)).prop_map(|(mut x, mv, pcs, with_pc)| {
                 if let (Some(t), true) = (mv, x.net.client_ep.cid_len > 0 && x.net.server_ep.cid_len > 0) {
                     x.net.client_move_at_us = Some(t);
                     x.net.srv.migration = true;
+                }
+                if with_pc {
+                    for (at_client, at_us) in pcs {
+                        let side = if at_client { &mut x.client } else { &mut x.server };
+                        side.ops.push(TimedOp { at_us, op: AuxOp::PathChanged });
+                        side.ops.sort_by_key(|o| o.at_us);
+                    }
                 }
                 x
             })
